@@ -3,7 +3,7 @@ import itertools
 
 from props.graph import FAULT_KINDS, GraphProp
 
-KINDS = ["SimFault", "RuntimeError", "MemoryError", "KeyboardInterrupt"]
+KINDS = ["SimFault", "RuntimeError", "MemoryError", "KeyboardInterrupt", "SimBaseFault"]
 
 
 class Prop(GraphProp):
@@ -16,7 +16,7 @@ class Prop(GraphProp):
              "thorough": {"runs": 400000, "budget_s": 900, "chunk": 16}}
     rule = ("(a) exhaustive part: for a fixed family of small worlds x schedules, every callback invocation (Hamiltonian "
             "term, Sylvester solver, multiplication) of every operation x {SimFault(Exception), RuntimeError, MemoryError, "
-            "KeyboardInterrupt} is injected as a single fault, the schedule continues and finally every element is "
+            "KeyboardInterrupt, SimBaseFault(BaseException)} is injected as a single fault, the schedule continues and finally every element is "
             "re-requested; (b) seeded part: random worlds and schedules with 1-4 faults, transient or sticky (the same site "
             "fails again on retry), placed only where the clean run of the same schedule shows a callback invocation, incl. "
             "faults during block_diagonalize(...) itself, in a second computation sharing the input, in chained "
@@ -25,7 +25,7 @@ class Prop(GraphProp):
             "the final sweep equal a fresh undisturbed computation.  non-trivial = a fault fired while at least two "
             "elements were in flight (nesting depth >= 2) and at least 3 value-returning requests followed; distinct = "
             "distinct sha256 of the event log")
-    probes = ["fmt_implicit", "kpm_world", "fault_SimFault", "fault_RuntimeError", "fault_MemoryError", "fault_KeyboardInterrupt", "fault_site_H",
+    probes = ["fmt_implicit", "kpm_world", "fault_SimBaseFault", "fault_SystemExit", "fault_SimFault", "fault_RuntimeError", "fault_MemoryError", "fault_KeyboardInterrupt", "fault_site_H",
               "fault_site_S", "fault_site_M", "fault_site_Hc", "fault_sticky_rehit", "fault_depth_ge2", "fault_in_build",
               "recompute_after_eviction", "op_raised_by_fault", "final_checked", "multi_comp_world", "chain_world",
               "fault_in_array_op", "fault_in_view_op"]
@@ -33,7 +33,7 @@ class Prop(GraphProp):
                    "asynchronous interrupts between arbitrary bytecodes are outside the stated property",
                    "oracle: a fresh undisturbed computation of the same world in the same process"]
     fixed_description = ("single-fault enumeration: every callback invocation index of every operation of the fixed "
-                         "(world, schedule) family x 4 exception kinds")
+                         "(world, schedule) family x 5 exception kinds")
 
     profile = {"p_illposed": 0.0, "max_ops": 30}
 
@@ -49,7 +49,7 @@ class Prop(GraphProp):
             for _ in range(nf):
                 op = r.choice(sorted(ticks))
                 k = r.randrange(ticks[op])
-                faults.append({"op": op, "k": k, "kind": r.choice(KINDS + ["SimFault", "ValueError"]),
+                faults.append({"op": op, "k": k, "kind": r.choice(KINDS + ["SimFault", "ValueError", "SystemExit"]),
                                "persist": r.choice([1, 1, 1, 2, 3])})
             # retry the faulted request right away in most runs
             if r.random() < 0.7:
